@@ -123,8 +123,6 @@ impl JobCheck {
         let k = ctx.tier.pick(self.k.0, self.k.1);
         let cases = ctx.cases(self.cases.0, self.cases.1);
         let counter = std::cell::Cell::new(0u64);
-        // regression tier: saved replays first
-        self.regressions(ctx, &mut report);
         search(ctx, 1, cases, 60..400, &mut report, |choices, rep, shrinking| {
             let mut g = Gen::new(choices, &profile);
             let job = g.job();
@@ -172,31 +170,6 @@ impl JobCheck {
             Case::Pass { nontrivial }
         });
         report
-    }
-
-    /// Re-run the committed replay files of this property (seconds-long regression tier).
-    fn regressions(&self, ctx: &Ctx, report: &mut Report) {
-        if ctx.shard != 0 {
-            return;
-        }
-        let dir = ctx.replay_dir();
-        let Ok(rd) = std::fs::read_dir(&dir) else { return };
-        let mut files: Vec<_> = rd.filter_map(|e| e.ok()).map(|e| e.path()).collect();
-        files.sort();
-        for f in files {
-            if f.extension().map_or(true, |e| e != "json") {
-                continue;
-            }
-            let Ok(txt) = std::fs::read_to_string(&f) else { continue };
-            let Ok(v) = serde_json::from_str::<Value>(&txt) else { continue };
-            report.class("regression_replays");
-            if let Err(m) = self.replay_n(ctx, &v, ctx.tier.pick(6, 20)) {
-                report.violations.push(Violation {
-                    message: format!("regression replay failed: {m}"),
-                    replay: f.to_string_lossy().to_string(),
-                });
-            }
-        }
     }
 
     fn replay_n(&self, ctx: &Ctx, v: &Value, reps: u64) -> Result<String, String> {
